@@ -1,5 +1,6 @@
 import Prism.Proofs.C20
 import Prism.Proofs.C20Box
+import Prism.Proofs.C20BoxInv
 
 #print axioms Prism.Alg.C20_mul_inverse
 #print axioms Prism.Alg.C20_inverse_mul
@@ -13,3 +14,5 @@ import Prism.Proofs.C20Box
 #print axioms Prism.C20_toXYZ_float_box
 #print axioms Prism.C20_float_matches_exact
 #print axioms Prism.C20_published_spaces
+#print axioms Prism.C20_fromXYZ_float_box
+#print axioms Prism.C20_published_spaces_inv
